@@ -25,6 +25,25 @@ func (ex *Exec) evalCall(e *ast.CallExpr, st *State) Value {
 		}
 		// spec prelude intercepts
 		switch id.Name {
+		case "loopentry":
+			if _, isFn := ex.objOf(id).(*types.Func); isFn && ex.isPrelude(ex.objOf(id)) {
+				if ex.loopEntry == nil {
+					unsupported("loopentry() outside a loop invariant at %s", ex.pos(e.Pos()))
+				}
+				tmp := ex.loopEntry.fork(st.pc)
+				for l, val := range st.store {
+					if _, inBase := ex.base[l]; inBase {
+						continue
+					}
+					if _, have := tmp.store[l]; !have {
+						tmp.store[l] = val
+					}
+				}
+				ex.suppress++
+				v := ex.eval(e.Args[0], tmp)
+				ex.suppress--
+				return v
+			}
 		case "cancelled":
 			if _, isFn := ex.objOf(id).(*types.Func); isFn && ex.isPrelude(ex.objOf(id)) {
 				return ex.load(st, ex.cancelLoc()).(*Term)
